@@ -26,7 +26,7 @@ ASSUMPTIONS = [
 def run(ctx):
     ctx.prove(models=['Model/C22Check.v'])
     r = ctx.rng
-    n = 180 if ctx.quick else 3000
+    n = 160 if ctx.quick else 3000
     cases = []
     # deterministic scenarios aimed at the narrow windows: writer bit set while a reader backs out, try_lock drain + rollback,
     # reader back-out that must wake the draining writer, upgrade / downgrade hand-over
@@ -40,6 +40,7 @@ def run(ctx):
     ]
     for progs, sched in fixed:
         cases.append({'dist': False, 'n': 1, 'budget': 90, 'progs': progs, 'sched': (sched + [0] * 110)[:102]})
+    cases += rw_common.probe_family(False, not ctx.quick)      # deterministic hand-over windows: reader fetch_add, hand-over, reader back-out, probe
     cases += [rw_common.gen_case(r, False, malformed=(i % 8 == 7)) for i in range(n)]
     kept, verdicts = rw_common.correspond(ctx, cases, 'judge_rw', 'From DV Require Import Base.Sched Model.RWLockModel Model.C22Check.', 'C22')
     ctx.cov['rule'] = ('generated scripts (2-4 threads, critical sections with try / upgrade / downgrade, ~1/8 malformed) x generated schedules (random + sticky stretches), one fork per case under vsched on the real RWLock; '
